@@ -391,3 +391,35 @@ func verifCanary(label string, cond bool) {}
 //@            at(cleartext, k) == at(cleartext, off(cleartext) + len(cleartext) - e.signatureLength - 1)
 //@   assigns e.encrypt
 //@   ensures err == nil && symAlgo(e) ==> len(ciphertext) == (len(cleartext) / e.plainttextBlockSize) * e.blockSize
+
+// ---------------------------------------------------------------------------
+// C09: the signature verifiers. Each returns nil only if the primitive accepted exactly this verifier's
+// key, a digest of the WHOLE message and the WHOLE signature slice (ghost state of the assumed primitives:
+// crypto/rsa verifiedKey/... , hash fedMsg/digestMsg, hmac.Equal as a relation over the slices as given).
+// The interface dispatch from EncryptionAlgorithm.VerifySignature to these methods stays assumed.
+// ---------------------------------------------------------------------------
+//@ func (*PKCS1v15).Verify
+//@   props C09
+//@   requires s != nil
+//@   assigns *
+//@   ensures [C09:rsa-verify] result == nil ==> s.PublicKey != nil && rsa.verifiedKey(signature) == s.PublicKey &&
+//@           rsa.verifiedMsg(signature) == ref(msg) && rsa.verifiedMsgLen(signature) == len(msg) &&
+//@           rsa.verifiedSigOff(signature) == off(signature) && rsa.verifiedSigLen(signature) == len(signature)
+//@   canary ensures [C09:canary-rsa-never-accepts] result != nil
+
+//@ func (*RSAPSS).Verify
+//@   props C09
+//@   requires s != nil
+//@   assigns *
+//@   ensures [C09:rsa-verify] result == nil ==> s.PublicKey != nil && rsa.verifiedKey(signature) == s.PublicKey &&
+//@           rsa.verifiedMsg(signature) == ref(msg) && rsa.verifiedMsgLen(signature) == len(msg) &&
+//@           rsa.verifiedSigOff(signature) == off(signature) && rsa.verifiedSigLen(signature) == len(signature)
+
+//@ func (*HMAC).Verify
+//@   props C09
+//@   requires s != nil
+//@   assigns nothing
+//@   ensures [C09:hmac-verify] result == nil ==> exists d []byte :: { hmac.sameBytes(d, signature) }
+//@           hmacKey(ref(d)) == ref(s.Secret) && hmacKeyLen(ref(d)) == len(s.Secret) &&
+//@           hmacMsg(ref(d)) == ref(msg) && hmacMsgLen(ref(d)) == len(msg) && hmac.sameBytes(d, signature)
+//@   canary ensures [C09:canary-hmac-never-accepts] result != nil
